@@ -19,6 +19,11 @@ A killed process performs no further filesystem operation: the kill is
 delivered as a ``Killed`` exception at the yield point and every later
 operation of that process raises it again without effect, so clean-up
 handlers of the code under test cannot act after the "kill -9".
+
+Second kill target (``crash_target == 1``): at a yield point of the scripted
+compiler only the compiler child dies (``ChildKilled`` is raised inside the
+compiler stub, which reports what ``subprocess`` reports for a child killed by
+a signal: return code -9); the calling process carries on.
 """
 from __future__ import annotations
 
@@ -27,6 +32,7 @@ import threading
 import z3
 
 from . import symx
+from .vfs import ChildKilled
 
 
 class Killed(BaseException):
@@ -45,6 +51,7 @@ class Proc:
         self.go = threading.Semaphore(0)
         self.state = "new"          # new -> parked/running -> done | dead
         self.dead = False
+        self.child_kill = False
         self.result = None
         self.exc = None
         self.nyield = 0
@@ -65,7 +72,8 @@ class Scheduler:
         self.back = threading.Semaphore(0)
         self.trace = []             # (pid, yield index, label, path) | ("crash", pid, index, label)
         self._by_thread = {}
-        self.crashed = None         # (pid, yield index, label, path)
+        self.crashed = None         # (pid, yield index, label, path) of a killed process
+        self.child_killed = None    # (pid, yield index, label, path) of a killed compiler
 
     # -- called from process threads (through vfs.hook) ----------------------
     def current_pid(self):
@@ -85,6 +93,9 @@ class Scheduler:
         p.state = "running"
         if p.dead:
             raise Killed()
+        if p.child_kill:
+            p.child_kill = False
+            raise ChildKilled()
         self.trace.append((p.pid, p.nyield, label, path))
         p.nyield += 1
 
@@ -141,7 +152,14 @@ class Scheduler:
                 if allowance == 0:
                     return True
                 allowance -= 1
-            if self.chooser.crash(p.pid, p.nyield, p.at):
+            what = self.chooser.crash(p.pid, p.nyield, p.at)
+            if what == "compiler":
+                # only the compiler child dies; the process goes on with what
+                # subprocess reports (negative return code)
+                self.child_killed = (p.pid, p.nyield, p.at[0], p.at[1])
+                self.trace.append(("killcc", p.pid, p.nyield, p.at[0]))
+                p.child_kill = True
+            elif what:
                 self._kill(p)
                 return False
             self._resume(p)
@@ -189,11 +207,17 @@ class SymbolicChooser:
     ``sum_k ite(s<k> != position of the running process, 1, 0) <= bound``.
     """
 
-    def __init__(self, crash_candidates=(0,), preemption_bound=None, prefix=""):
+    COMPILER_YIELDS = ("cc-half1", "cc-half2")
+
+    def __init__(self, crash_candidates=(0,), preemption_bound=None, prefix="",
+                 compiler_kills=True):
         self.k = 0
         self.prefix = prefix
         self.crash_proc = z3.Int(prefix + "crash_proc")
         self.crash_at = z3.Int(prefix + "crash_at")
+        # 0: the process (and its compiler) is killed; 1: only the compiler child
+        self.crash_target = z3.Int(prefix + "crash_target")
+        self.compiler_kills = compiler_kills
         self.crash_candidates = tuple(crash_candidates)
         self.bound = preemption_bound
         self.pre = []
@@ -204,9 +228,10 @@ class SymbolicChooser:
     def assumptions(self):
         cands = list(self.crash_candidates)
         if not cands:
-            return [self.crash_at == -1, self.crash_proc == -1]
-        return [self.crash_at >= -1,
-                z3.Or(*[self.crash_proc == c for c in cands]) if cands else z3.BoolVal(True)]
+            return [self.crash_at == -1, self.crash_proc == -1, self.crash_target == 0]
+        return [self.crash_at >= -1, z3.Or(*[self.crash_proc == c for c in cands]),
+                z3.Or(self.crash_target == 0, self.crash_target == 1) if self.compiler_kills
+                else self.crash_target == 0]
 
     def choose(self, pids, cur_pos):
         n = len(pids)
@@ -240,18 +265,24 @@ class SymbolicChooser:
         if self.crash_done or pid not in self.crash_candidates:
             return False
         ex = symx.current()
-        if ex.decide(z3.And(self.crash_proc == pid, self.crash_at == index)):
+        here = z3.And(self.crash_proc == pid, self.crash_at == index)
+        if self.compiler_kills and at and at[0] in self.COMPILER_YIELDS:
+            if ex.decide(z3.And(here, self.crash_target == 1)):
+                self.crash_done = True
+                return "compiler"
+        if ex.decide(z3.And(here, self.crash_target == 0)):
             self.crash_done = True
-            return True
+            return "process"
         return False
 
 
 class ScriptedChooser:
     """Concrete schedule (used to re-run a stored trace in the model)."""
 
-    def __init__(self, picks, crash=None):
+    def __init__(self, picks, crash=None, target="process"):
         self.picks = list(picks)
         self.crash_point = crash
+        self.target = target
         self.i = 0
 
     def choose(self, pids, cur_pos):
@@ -262,4 +293,6 @@ class ScriptedChooser:
         return v
 
     def crash(self, pid, index, at):
-        return self.crash_point is not None and tuple(self.crash_point) == (pid, index)
+        if self.crash_point is not None and tuple(self.crash_point) == (pid, index):
+            return self.target
+        return False
